@@ -429,6 +429,8 @@ pub async fn update_wire_server_redirect_policy(
     redirect: bool,
     redirector_shared_state: RedirectorSharedState,
 ) {
+    #[cfg(azure_guestproxyagent_verif)]
+    crate::verif::trace::emit(serde_json::json!({"e": "Policy", "ep": "ws", "redirect": redirect}));
     if let (Ok(Some(bpf_object)), Ok(local_port)) = (
         redirector_shared_state.get_bpf_object().await,
         redirector_shared_state.get_local_port().await,
@@ -446,6 +448,8 @@ pub async fn update_imds_redirect_policy(
     redirect: bool,
     redirector_shared_state: RedirectorSharedState,
 ) {
+    #[cfg(azure_guestproxyagent_verif)]
+    crate::verif::trace::emit(serde_json::json!({"e": "Policy", "ep": "imds", "redirect": redirect}));
     if let (Ok(Some(bpf_object)), Ok(local_port)) = (
         redirector_shared_state.get_bpf_object().await,
         redirector_shared_state.get_local_port().await,
@@ -463,6 +467,8 @@ pub async fn update_hostga_redirect_policy(
     redirect: bool,
     redirector_shared_state: RedirectorSharedState,
 ) {
+    #[cfg(azure_guestproxyagent_verif)]
+    crate::verif::trace::emit(serde_json::json!({"e": "Policy", "ep": "ga", "redirect": redirect}));
     if let (Ok(Some(bpf_object)), Ok(local_port)) = (
         redirector_shared_state.get_bpf_object().await,
         redirector_shared_state.get_local_port().await,
